@@ -570,9 +570,16 @@ func init() {
 			"clients x documents beyond 3 x 1 are not explored"},
 		QuickBudget: 300 * time.Second,
 		Run: func(env *Env) *Result {
+			// the primitives under the pipeline first (bounded: at most 40% of the
+			// budget), at the granularity of their own mutex / atomic operations
+			pres := NewResult()
+			penv := *env
+			if d := time.Until(env.Deadline) * 2 / 5; d > 0 {
+				penv.Deadline = time.Now().Add(d)
+			}
+			primRun(&penv, pres, "C16")
 			res := sCheckRun("C16", func(string) bool { return true })(env)
-			// the primitives under the pipeline, at the granularity of their own mutex / atomic operations
-			primRun(env, res, "C16")
+			res.Merge(pres)
 			return res
 		},
 		Reproduce: func(f *Found) (bool, error) {
